@@ -446,8 +446,10 @@ func (c *concCase) keySeeker(r *rng.R, n int) {
 		switch which {
 		case 0:
 			keys, vals := c.seekAll(storage.SeekRange{Prefix: []byte(stablePre), Backwards: back}, async)
-			if o := checkOrder(keys, back); o != "" || len(keys) != nStable {
-				c.violation("conc:scan-misses-committed-key:stable"+o, fmt.Sprintf("scan of stable keys -> %q %q", keys, vals))
+			if o := checkOrder(keys, back); o != "" {
+				c.violation("conc:stable-scan:"+o, fmt.Sprintf("scan of stable keys -> %q %q", keys, vals))
+			} else if len(keys) != nStable {
+				c.violation("conc:scan-misses-committed-key:stable", fmt.Sprintf("scan of stable keys -> %q %q", keys, vals))
 			}
 		case 1:
 			var floor [nChurn]int64
@@ -456,8 +458,12 @@ func (c *concCase) keySeeker(r *rng.R, n int) {
 			}
 			keys, vals := c.seekAll(storage.SeekRange{Prefix: []byte(churnPre), Backwards: back}, async)
 			desc := fmt.Sprintf("scan of rewritten keys -> %q %q, versions committed before %v", keys, vals, floor)
-			if o := checkOrder(keys, back); o != "" || len(keys) != nChurn {
-				c.violation("conc:scan-misses-committed-key:rewritten"+o, desc)
+			if o := checkOrder(keys, back); o != "" {
+				c.violation("conc:rewritten-scan:"+o, desc)
+				break
+			}
+			if len(keys) != nChurn {
+				c.violation("conc:scan-misses-committed-key:rewritten", desc)
 				break
 			}
 			for j, k := range keys {
